@@ -1,0 +1,42 @@
+/*
+* Verification hooks (feature `verif-hooks`, off by default).
+*
+* A thread-local logical step counter used by external runtime monitors to decide
+* "this call does not loop forever" on logical steps instead of wall-clock time.
+* With the feature off, this module is not compiled and no call site exists.
+*/
+
+use core::cell::Cell;
+
+thread_local! {
+    static BUDGET: Cell<u64> = const { Cell::new(u64::MAX) };
+    static STEPS: Cell<u64> = const { Cell::new(0) };
+}
+
+/// Payload prefix of the panic raised when the step budget is exceeded.
+pub const STEP_BUDGET_PANIC: &str = "verif-hooks: step budget exceeded at ";
+
+/// Resets the step counter and sets the number of steps allowed until the next reset.
+pub fn reset(budget: u64) {
+    BUDGET.with(|b| b.set(budget));
+    STEPS.with(|s| s.set(0));
+}
+
+/// Number of steps counted since the last reset.
+pub fn steps() -> u64 {
+    STEPS.with(|s| s.get())
+}
+
+/// Counts one step of a data-dependent loop; panics with a recognisable payload once the budget is exceeded.
+pub fn tick(site: &'static str) {
+    let n = STEPS.with(|s| {
+        let n = s.get() + 1;
+        s.set(n);
+        n
+    });
+    if n > BUDGET.with(|b| b.get()) {
+        // Disarm so that unwinding code does not trip again.
+        BUDGET.with(|b| b.set(u64::MAX));
+        panic!("{}{}", STEP_BUDGET_PANIC, site);
+    }
+}
